@@ -367,14 +367,21 @@ impl ActionsGenerator for ProductionActionsGenerator<'_> {
                                 [a, b] => {
                                     let mut a_i = format_ident!("{}", a.name);
                                     let mut b_i = format_ident!("{}", b.name);
-                                    // Find which one is a vector
-                                    if b.ref_type == nonterminal.name {
+                                    // Find which one is a vector. For a
+                                    // right-recursive rule (`A: B A`) the
+                                    // element comes before the elements
+                                    // already collected.
+                                    let right_recursive = b.ref_type == nonterminal.name;
+                                    if right_recursive {
                                         (a_i, b_i) = (b_i, a_i)
                                     }
-                                    body.push(if recursive.get() {
-                                        parse_quote! { #a_i.push(Box::new(#b_i)) }
-                                    } else {
-                                        parse_quote! { #a_i.push(#b_i) }
+                                    body.push(match (recursive.get(), right_recursive) {
+                                        (true, false) => parse_quote! { #a_i.push(Box::new(#b_i)) },
+                                        (false, false) => parse_quote! { #a_i.push(#b_i) },
+                                        (true, true) => {
+                                            parse_quote! { #a_i.insert(0, Box::new(#b_i)) }
+                                        }
+                                        (false, true) => parse_quote! { #a_i.insert(0, #b_i) },
                                     });
                                     body.push(parse_quote! { #a_i });
                                 }
